@@ -285,6 +285,23 @@ def run(prop, tier):
         for i, b in enumerate(bsm):
             b["id"] = "sm%d" % i
         plans.append((sm, bsm))
+    if prop in ("C04", "C05"):
+        # an entity added without a vector: stored as a zero vector while a live vector fixes the dimension, refused otherwise
+        nv = dict(SEEDED_BASE, Vecs="<- c_Vecs1n", MaxOps=3 if quick else 4, MaxRej=1)
+        novec = lambda ops: any(o.get("op") == "VAdd" and o.get("vec") == "vnone" for o in ops[3:])
+        cnv = corpus(chk, "MC_Kektor_novec_corpus", nv, workers=8, timeout=3000)
+        bnv, _ = vlib.behaviours_from_corpus(cnv, max_behaviours=100 if quick else 5000, rng=rng, need=novec)
+        # every (state, refused call) pair: "delete every vector, then add an entity without a vector" is one of them
+        cnr = corpus(chk, "MC_Kektor_novec_rejected", nv, workers=8, timeout=3000, rejleaf=True)
+        bnr, _ = vlib.behaviours_from_corpus(cnr, max_behaviours=100 if quick else 5000, rng=rng,
+                                             need=lambda ops: ops[-1].get("res") == "err" and ops[-1].get("vec") == "vnone",
+                                             stratum=lambda ops: tuple(o.get("op") for o in ops[3:-1]))
+        for i, b in enumerate(bnr):
+            b["id"] = "nr%d" % i
+        bnv = bnv + bnr
+        for i, b in enumerate(bnv):
+            b["id"] = "nv%d" % i
+        plans.append((nv, bnv))
     if prop == "C04":
         s3 = dict(SEEDED_IDS5, MaxOps=3 if quick else 4)
         c3 = corpus(chk, "MC_Kektor_seeded_ids5_corpus", s3, workers=8, timeout=3000)
